@@ -2,6 +2,8 @@ package checks
 
 import (
 	"bytes"
+	"context"
+	"errors"
 	"fmt"
 	"sort"
 	"strings"
@@ -166,6 +168,19 @@ func c15run(env *hs.Env, s c15session, yield func()) (r c15result, cl *hs.Client
 		r.Err = "startup: " + err.Error()
 		return
 	}
+	if strings.HasPrefix(s.User, "reject") {
+		// the session middleware turns this user away: the connection ends, nothing is served
+		r.Startup = "rejected " + collapse(pg.Types(msgs))
+		if cl.C.WaitClosed() {
+			r.Startup += " closed"
+		}
+		for _, e := range cl.C.Events() {
+			if e.Kind == "cb" {
+				r.Trace = append(r.Trace, "cb:"+e.Name)
+			}
+		}
+		return
+	}
 	var ps []string
 	for _, m := range msgs {
 		if m.T == 'S' {
@@ -211,7 +226,30 @@ func c15run(env *hs.Env, s c15session, yield func()) (r c15result, cl *hs.Client
 	return
 }
 
+// c15mw: three session middlewares; the first rejects users whose name starts with "reject".
+func c15mw() []wire.OptionFn {
+	var out []wire.OptionFn
+	for i := 0; i < 3; i++ {
+		i := i
+		out = append(out, wire.SessionMiddleware(func(ctx context.Context) (context.Context, error) {
+			if i == 0 && strings.HasPrefix(wire.AuthenticatedUsername(ctx), "reject") {
+				return ctx, errors.New("this user is not welcome")
+			}
+			hs.ConnOf(ctx).CB("mw", i)
+			return ctx, nil
+		}))
+	}
+	return out
+}
+
 func c15opts(custom bool) []wire.OptionFn {
+	if !custom {
+		return append(c15mw(), c15optsBase(custom)...)
+	}
+	return append(c15mw(), c15optsBase(custom)...)
+}
+
+func c15optsBase(custom bool) []wire.OptionFn {
 	if !custom {
 		return []wire.OptionFn{wire.GlobalParameters(wire.Parameters{"application_name": "verif-c15", "DateStyle": "ISO", "session_authorization": "nobody"}), wire.Version("15.0-verif")}
 	}
@@ -240,6 +278,9 @@ func (ch c15) Run(c *core.Ctx) {
 		sessions := make([]c15session, n)
 		for i := range sessions {
 			sessions[i] = c15genShared(rng, fmt.Sprintf("g%dc%d", g, i), custom, fmt.Sprintf("s%dg%d", c.Seed, g))
+			if rng.Intn(4) == 0 {
+				sessions[i].User = "reject_" + sessions[i].User // turned away by the first session middleware
+			}
 		}
 		cs := map[string]any{"group": g, "sessions": n, "custom_type": custom}
 		// solo references: one fresh server, sessions one after another
@@ -371,6 +412,13 @@ func (ch c15) Run(c *core.Ctx) {
 				if res[i].Err != "" {
 					c.Violate("concurrent-run", "concurrent run failed: "+res[i].Err, fmt.Sprintf("group %d session %d", g, i), cs)
 					continue
+				}
+				if strings.HasPrefix(sessions[i].User, "reject") {
+					c.Count("rejected_user_sessions", 1)
+					if !strings.HasSuffix(res[i].Startup, "closed") || strings.Contains(res[i].Startup, "Z") {
+						c.Violate("middleware-isolation", "a user rejected by a session middleware is served when other users connect at the same time", fmt.Sprintf("group %d session %d: %q", g, i, res[i].Startup), cs)
+						continue
+					}
 				}
 				if res[i].Startup != solo[i].Startup {
 					c.Violate("startup-differs", "startup reply differs from solo run", fmt.Sprintf("group %d session %d: %q vs solo %q", g, i, res[i].Startup, solo[i].Startup), cs)
